@@ -62,6 +62,9 @@ CHECKS = {
     "C09": ("exploration", "runtime monitoring of every diagnostic that proposes code: the proposal is located (QuickFix or message), substituted into a scratch copy, and go/parser, go/types and a second run of the real checker judge it; -fix end-to-end through the real analysis binary",
             "Scenario families for every Suggest rule and hand-written 'replace A with B' checker, generated packages and the maintainers' examples are analysed; each proposal must parse as the category it replaces, keep the file type-checking with the same expression type, swallow no unrelated statement and disappear on re-analysis; go-critic-analysis -fix is run on scratch copies and bytes outside the edit ranges are compared.",
             "message-only proposals that cannot be matched back to a node are inconclusive; import management is outside an edit's range", "5/C09"),
+    "C10": ("exploration", "runtime differential: original scenario function vs a copy with the proposed rewrite applied, both compiled by the Go compiler and executed on an input grid; results, panics, ordered side-effect traces and final state compared",
+            "For every in-scope checker (the property's list) scenario families instantiate the rewrite over operand pools (pure/impure operands that log into a trace, int/uint8/float/string/[]byte/time operands, decimal/octal/hex/binary/underscore/rune literals, +-1 on either side of all comparisons, function variables re-assigned after a defer, nil Stringers); each located rewrite is compiled next to its original and run on 48/144 inputs incl. NaN/Inf.",
+            "integer grids avoid overflow and unsigned wrap-around; rewrites that do not compile are C09's business", "5/C10"),
 }
 
 PENDING = {}
